@@ -60,7 +60,15 @@ func (e *engine) makeStores() (func(id ch.NodeID) (channelstore.Factory, func())
 	simMetaDB = db
 	mk := func(id ch.NodeID) (channelstore.Factory, func()) {
 		if e.c.msgdb {
-			f := channelstore.NewMessageDBFactory(fmt.Sprintf("msg%d", id))
+			// An append holds the channel log's append mutex while the group-commit
+			// coordinator collects for its flush window (a timer). Any second repo
+			// goroutine that asks for that mutex meanwhile (the quorum repair owner's
+			// Load, a retention trim) waits on a sync.Mutex, which is not durably
+			// blocking, so the bubble's clock could never reach the timer. A negative
+			// window selects the coordinator's timer-free collect path (0 would be
+			// replaced by the 500µs default); one shard keeps commit order canonical.
+			opts := channelstore.MessageDBFactoryOptions{CommitShards: 1, CommitFlushWindow: -1}
+			f := channelstore.NewMessageDBFactoryWithOptions(fmt.Sprintf("msg%d", id), opts)
 			return f, func() { _ = f.Close() }
 		}
 		return channelstore.NewMemoryFactory(), nil
@@ -128,7 +136,10 @@ func (e *engine) collect() []simkit.Action {
 		occ[p.Key]++
 		key := fmt.Sprintf("%s #%d", p.Key, occ[p.Key])
 		blocked := w.nodes[info.from].isolated || (w.nodes[info.to] != nil && w.nodes[info.to].isolated)
-		if !blocked {
+		// quorum mode: a forwarded append runs Service.Append on the target, which may
+		// take the metadata-apply mutex; it waits in the network while another taker is inside
+		gated := isAppendRPC(info.service) && w.svcBusy(info.to)
+		if !blocked && !gated {
 			acts = append(acts, simkit.Action{Prio: 0, Key: "deliver " + key, Weight: 8, Do: func() { w.sw.Release(p, rpcDeliver) }})
 		}
 		if blocked || e.c.fDrop {
@@ -137,7 +148,7 @@ func (e *engine) collect() []simkit.Action {
 				w.sw.Release(p, rpcDrop)
 			}})
 		}
-		if !blocked && e.c.fDrop {
+		if !blocked && !gated && e.c.fDrop {
 			acts = append(acts, simkit.Action{Prio: 5, Key: "dropresp " + key, Weight: 1, Do: func() {
 				e.r.Fault("net.response_lost")
 				w.sw.Release(p, rpcDropResponse)
@@ -164,7 +175,7 @@ func (e *engine) collect() []simkit.Action {
 	for _, id := range w.ids {
 		id := id
 		n := w.nodes[id]
-		if n.view < latest {
+		if n.view < latest && !w.svcInside(id) { // quorum mode: the view is frozen while a service call (and its retries) is inside the node
 			acts = append(acts, simkit.Action{Prio: 3, Key: fmt.Sprintf("view n%d", id), Weight: 3, Do: func() {
 				to := n.view + 1 + e.r.Tape.Intn(latest-n.view)
 				if e.r.Tape.Intn(2) == 0 {
@@ -240,6 +251,14 @@ func (e *engine) controlPlane() {
 		}
 		next.Leader = cands[tp.Intn(len(cands))]
 		e.leaderChg = true
+		if e.c.quorum {
+			for _, op := range e.ops {
+				if op.kind == "append" && !op.done {
+					e.r.Probe("quorum.leader_change_with_inflight_append")
+					break
+				}
+			}
+		}
 		e.publishMeta(next, "leader-change")
 		e.r.Probe("control.leader_change")
 	case 2:
@@ -292,6 +311,11 @@ func (e *engine) startOp() {
 		mg = 3
 	}
 	kind := tp.Weighted([]int{6, 5, 2, 1, 4, 2, mg})
+	if (kind == 0 || kind == 5) && w.svcBusy(node) {
+		// quorum mode only: one metadata-lock taker per node at a time (see cworld.svcIn)
+		e.r.Probe("quorum.lock_taker_deferred")
+		kind = 1
+	}
 	switch kind {
 	case 0:
 		e.opAppend(node)
@@ -332,7 +356,9 @@ func (e *engine) opAppend(node ch.NodeID) {
 	e.r.Logf("  op%d %s", op.id, op.desc)
 	svc := e.w.nodes[node].svc
 	chID := e.w.id
+	e.w.svcEnter(node)
 	go func() {
+		defer e.w.svcLeave(node)
 		ctx, cancel := context.WithTimeout(context.Background(), opTimeout)
 		defer cancel()
 		res, err := svc.Append(ctx, ch.AppendRequest{ChannelID: chID, Message: msg, CommitMode: mode})
@@ -580,8 +606,18 @@ func (e *engine) opApplyMeta(node ch.NodeID) {
 	m := e.metaAt(n.view)
 	v := n.view
 	op.desc = fmt.Sprintf("ApplyMeta n%d v%d", node, v)
+	if e.w.svcBusy(node) {
+		// quorum mode only (reached through the retention fallback): another call may hold the metadata-apply mutex
+		op.desc += " (skipped: service busy)"
+		e.r.Logf("  op%d %s", op.id, op.desc)
+		e.complete(op)
+		return
+	}
 	e.r.Logf("  op%d %s", op.id, op.desc)
+	op.meta, op.hasMeta = m, true
+	e.w.svcEnter(node)
 	go func() {
+		defer e.w.svcLeave(node)
 		op.err = n.svc.ApplyMeta(m)
 		e.complete(op)
 	}()
